@@ -52,5 +52,30 @@ Proof. reflexivity. Qed.
 Lemma reader_int_list_arms_agree : reader_int_list_arms = writer_int_list_arms.
 Proof. vm_compute. reflexivity. Qed.
 
-Lemma reader_id62_agree : reader_id62_published = true.
-Proof. reflexivity. Qed.
+(* wellKnownStringPatterns: probe read_string with each generated pattern — the
+   model turns it into the generated format and drops it from the rules; the
+   published id62 pattern makes the field a key:id62 *)
+From J5V.gen Require Id62Gen.
+Definition model_wellknown (p : str) : option str :=
+  match read_string (Some (CStr None None (Some p) false)) None None None with
+  | Ok (TStr (Some f) (Some (SR None None None)) None) => Some f
+  | _ => None
+  end.
+Definition ostr_eqb (a : option str) (b : str) : bool :=
+  match a with Some x => str_eqb x b | None => false end.
+Lemma reader_wellknown_agree :
+  forallb (fun a => ostr_eqb (model_wellknown (fst a)) (snd a)) reader_wellknown_literals = true /\
+  length reader_wellknown_literals = 2%nat /\
+  (* a pattern not in the table stays a pattern *)
+  model_wellknown [94%N; 97%N; 36%N] = None.
+Proof. repeat split; vm_compute; reflexivity. Qed.
+
+Definition model_id62_reads_as_key : bool :=
+  match read_string (Some (CStr None None (Some Id62Gen.pattern_string) false)) None None None with
+  | Ok (TKey (Some KId62) None None) => true
+  | _ => false
+  end.
+Lemma reader_id62_agree :
+  reader_id62_published = model_id62_reads_as_key /\
+  reader_wellknown_id62_format = [105%N; 100%N; 54%N; 50%N].   (* "id62": the format name buildFromStringProto tests for *)
+Proof. split; vm_compute; reflexivity. Qed.
